@@ -43,11 +43,15 @@ def run(ctx):
         os.makedirs(d)
         return d
 
-    def tool(args, env=None, cwd=None, timeout=120):
+    def tool(args, env=None, cwd=None, timeout=120, nofile=None):
         e = dict(os.environ)
         if env:
             e.update({k: str(v) for k, v in env.items()})
-        p = subprocess.run(args, stdout=subprocess.PIPE, stderr=subprocess.PIPE, env=e, cwd=cwd, timeout=timeout)
+        pre = None
+        if nofile:
+            import resource
+            pre = lambda: resource.setrlimit(resource.RLIMIT_NOFILE, (nofile, nofile))     # the process may hold that many open files at a time
+        p = subprocess.run(args, stdout=subprocess.PIPE, stderr=subprocess.PIPE, env=e, cwd=cwd, timeout=timeout, preexec_fn=pre, stdin=subprocess.DEVNULL)
         ctx.stat("evaluations")
         return p.returncode, p.stdout, p.stderr
 
@@ -504,7 +508,24 @@ def run(ctx):
             ctx.stat("nontrivial")
     multi_file()
 
-    # ---------------- asconsum
+    # ---------------- asconsum: more files on one command line than the process may hold open at a time (each is done with before the next), hash and check mode
+    d = wd()
+    many = []
+    for i in range(80):
+        p = os.path.join(d, "m%02d.bin" % i)
+        write(p, content(i, 1))
+        many.append(os.path.basename(p))
+    for flag in ("-h", "-y"):
+        rc, o, e = tool([summ, flag] + many + ["-", "-"], cwd=d, nofile=24)
+        lines = o.decode().splitlines()
+        if rc != 0 or len(lines) != len(many) + 2:
+            ctx.fail("asconsum:many-files:%s" % flag, "%d files with a limit of 24 open files: exit %d, %d digest lines: %s" % (len(many) + 2, rc, len(lines), e.decode()[-160:]))
+        else:
+            write(os.path.join(d, "many.txt"), b"\n".join(l.encode() for l in lines[:len(many)]) + b"\n")
+            rc, o2, e2 = tool([summ, flag, "-c", "many.txt"], cwd=d, nofile=24)
+            if rc != 0 or o2.decode().count(": OK") != len(many):
+                ctx.fail("asconsum:many-files:%s" % flag, "check mode over %d files with a limit of 24 open files: exit %d, %d OK lines" % (len(many), rc, o2.decode().count(": OK")))
+        ctx.stat("nontrivial")
     d = wd()
     names = []
     for n in ([0, 1, 7, 8, 9, 100, B - 1, B, B + 1, 2 * B, 2 * B + 7] if not thorough else sizes + [7, 8, 9, 100, 5 * B + 3]):
